@@ -360,9 +360,17 @@ func runCheck(root string, args []string) int {
 	if rebFacts := map[string][]string{
 		"C10": {"bonded_validators_at_target", "unbonded_validators_not_adjusted", "end_of_block_succeeds"},
 		"C11": {"module_holds_no_staking_denom", "net_supply_unchanged", "no_user_receives_staking_denom"},
+		"C17": {"end_of_block_succeeds"},
 	}[prop]; rebFacts != nil && tier == "thorough" {
 		runBoundedSuite(root, vd, prop, seed, "rebalance", "bounded/zz_bounded_rebalance_test.go", "TestBoundedRebalance", rebFacts,
 			"10 seeded random histories x 14 blocks, 3 bonded validators with native stake, 3 users, two assets (one starts 5 minutes later), alliance and native (un)delegations, weight changes, jail/unjail; each block ends with the staking validator-set update and the real EndBlocker",
+			isKnown, &knownHit, &bounded, &violations, &vioLines)
+	}
+	// thorough tier: bounded comparison of the queries with an independent enumeration (C20)
+	if prop == "C20" && tier == "thorough" {
+		runBoundedSuite(root, vd, prop, seed, "queries", "bounded/zz_bounded_queries_test.go", "TestBoundedQueries",
+			[]string{"unbondings_by_delegator_exact", "unbondings_by_denom_and_delegator_exact", "unbondings_by_validator_exact", "redelegations_by_delegator_exact", "redelegations_by_denom_exact", "delegation_query_reports_record_and_balance"},
+			"10 seeded random histories x 16 steps (same-block steps), 3 users x 3 validators x 2 assets; every third history starts with a delegator unbonding from two validators and two denoms in one block",
 			isKnown, &knownHit, &bounded, &violations, &vioLines)
 	}
 	// thorough tier: bounded stand-in for the compositions over blocks (C09, C14, C15)
